@@ -153,6 +153,7 @@ func emitLookups(e *emitter, is *implSet, rf *refForest, dead []u.Hash, rng *ran
 		if !is.dead[mapName(m)] {
 			guarded(e, "lookups."+mapName(m), func() {
 				look(mapName(m), m)
+				emitMapRead(e, m, rf, rf.liveHashes(), rng)
 				e.line("COUNT %s.cached %d", mapName(m), m.CachedLeaves.Length())
 				var hh []u.Hash
 				for _, q := range qs {
